@@ -124,7 +124,7 @@ theorem gov_change_authorised (s s' : State) (mode : Mode) (t : Tx) (ok : Bool)
 /-- Such a change alters the parameter named by the key alone. -/
 theorem change_only_that_key (s : State) (key val : String) :
     let s' := applyParam s key val
-    s'.acl = s.acl ∧ s'.bal = s.bal ∧ s'.supply = s.supply ∧ s'.vals = s.vals ∧
+    (key ≠ "gov/acl" → s'.acl = s.acl) ∧ s'.bal = s.bal ∧ s'.supply = s.supply ∧ s'.vals = s.vals ∧
     (key ≠ "gov/daoOwner" → s'.daoOwner = s.daoOwner) ∧
     (key ≠ "pos/MaxValidators" → s'.p.maxVals = s.p.maxVals) ∧
     (key ≠ "pos/StakeMinimum" → s'.p.minStake = s.p.minStake) ∧
@@ -139,6 +139,99 @@ theorem change_only_that_key (s : State) (key val : String) :
   unfold applyParam
   repeat' split
   all_goals simp
+
+/-! ### looking a key up after `aclSet` / `aclDrop` -/
+
+theorem lookup_cons_eq {β} (k : String) (b : β) (es : List (String × β)) :
+    List.lookup k ((k, b) :: es) = some b := by
+  rw [List.lookup_cons]; simp
+theorem lookup_cons_ne {β} (k k1 : String) (b : β) (es : List (String × β)) (h : k ≠ k1) :
+    List.lookup k ((k1, b) :: es) = List.lookup k es := by
+  rw [List.lookup_cons]
+  have : (k == k1) = false := by simpa using h
+  rw [this]
+
+theorem lookup_aclSet_self (l : List (String × Addr)) (k : String) (o : Addr) :
+    (aclSet l k o).lookup k = some o := by
+  induction l with
+  | nil => exact lookup_cons_eq _ _ _
+  | cons e rest ih =>
+    obtain ⟨k', o'⟩ := e
+    unfold aclSet
+    by_cases h : k' = k
+    · simp only [h, beq_self_eq_true, if_true]; exact lookup_cons_eq _ _ _
+    · have h' : k ≠ k' := fun e => h e.symm
+      simp only [beq_iff_eq, h, if_false]
+      rw [lookup_cons_ne _ _ _ _ h', ih]
+
+theorem lookup_aclSet_other (l : List (String × Addr)) (k : String) (o : Addr) (k' : String) (hk : k' ≠ k) :
+    (aclSet l k o).lookup k' = l.lookup k' := by
+  induction l with
+  | nil => unfold aclSet; rw [lookup_cons_ne _ _ _ _ hk]
+  | cons e rest ih =>
+    obtain ⟨k1, o1⟩ := e
+    unfold aclSet
+    by_cases h : k1 = k
+    · subst h
+      simp only [beq_self_eq_true, if_true]
+      rw [lookup_cons_ne _ _ _ _ hk, lookup_cons_ne _ _ _ _ hk]
+    · simp only [beq_iff_eq, h, if_false]
+      by_cases h2 : k' = k1
+      · subst h2; rw [lookup_cons_eq, lookup_cons_eq]
+      · rw [lookup_cons_ne _ _ _ _ h2, lookup_cons_ne _ _ _ _ h2, ih]
+
+theorem lookup_aclDrop_self (l : List (String × Addr)) (k : String) : (aclDrop l k).lookup k = none := by
+  unfold aclDrop
+  induction l with
+  | nil => rfl
+  | cons e rest ih =>
+    obtain ⟨k1, o1⟩ := e
+    by_cases h : k1 = k
+    · rw [List.filter_cons_of_neg (by simp [h]), ih]
+    · have h' : k ≠ k1 := fun e => h e.symm
+      rw [List.filter_cons_of_pos (by simpa using h), lookup_cons_ne _ _ _ _ h', ih]
+
+theorem lookup_aclDrop_other (l : List (String × Addr)) (k k' : String) (hk : k' ≠ k) :
+    (aclDrop l k).lookup k' = l.lookup k' := by
+  unfold aclDrop
+  induction l with
+  | nil => rfl
+  | cons e rest ih =>
+    obtain ⟨k1, o1⟩ := e
+    by_cases h : k1 = k
+    · subst h
+      rw [List.filter_cons_of_neg (by simp), ih, lookup_cons_ne _ _ _ _ hk]
+    · rw [List.filter_cons_of_pos (by simpa using h)]
+      by_cases h2 : k' = k1
+      · subst h2; rw [lookup_cons_eq, lookup_cons_eq]
+      · rw [lookup_cons_ne _ _ _ _ h2, lookup_cons_ne _ _ _ _ h2, ih]
+
+/-- Ownership hand-over: a change of the access-control list re-assigns exactly the named key - afterwards the list
+names the new owner for it and whoever it named before for every other key - and touches nothing else. -/
+theorem acl_handover (s : State) (k : String) (o : Addr) (hk : k ≠ "") (ho : o ≠ "")
+    (hs : (k ++ "=" ++ o).splitOn "=" = [k, o]) :   -- neither the key nor the address contains `=`
+    let s' := applyParam s "gov/acl" (k ++ "=" ++ o)
+    s'.acl.lookup k = some o ∧ (∀ k', k' ≠ k → s'.acl.lookup k' = s.acl.lookup k') ∧
+    s'.p = s.p ∧ s'.daoOwner = s.daoOwner ∧ s'.bal = s.bal ∧ s'.supply = s.supply ∧ s'.vals = s.vals := by
+  intro s'
+  have e : s' = { s with acl := aclSet s.acl k o } := by
+    simp only [s', applyParam, parseAclChange, hs]
+    simp [hk, ho]
+  rw [e]
+  exact ⟨lookup_aclSet_self _ _ _, fun k' h => lookup_aclSet_other _ _ _ _ h, rfl, rfl, rfl, rfl, rfl⟩
+
+/-- Dropping a key: a hand-over to the empty owner removes exactly the named key from the access-control list -
+afterwards nobody may change that parameter - and touches nothing else. -/
+theorem acl_drop (s : State) (k : String) (hk : k ≠ "") (hs : (k ++ "=").splitOn "=" = [k, ""]) :
+    let s' := applyParam s "gov/acl" (k ++ "=")
+    s'.acl.lookup k = none ∧ (∀ k', k' ≠ k → s'.acl.lookup k' = s.acl.lookup k') ∧
+    s'.p = s.p ∧ s'.daoOwner = s.daoOwner ∧ s'.bal = s.bal := by
+  intro s'
+  have e : s' = { s with acl := aclDrop s.acl k } := by
+    simp only [s', applyParam, parseAclChange, hs]
+    simp [hk]
+  rw [e]
+  exact ⟨lookup_aclDrop_self _ _, fun k' h => lookup_aclDrop_other _ _ _ h, rfl, rfl, rfl⟩
 
 /-- No block-level operation (BeginBlock, EndBlock, Commit, queued awards and burns) changes a
 parameter, the ACL or the DAO owner. -/
